@@ -106,6 +106,7 @@ def finish(prop, tier, seed, results, wall, known, no_evidence=False):
     obligations = sum(r.get("verified", 0) + r.get("errors", 0) for r in results.values())
     discharged = sum(r.get("verified", 0) for r in results.values())
     fns = []
+    stub_uses = []
     assumptions = []
     rewrites = []
     samples = []
@@ -117,6 +118,9 @@ def finish(prop, tier, seed, results, wall, known, no_evidence=False):
         for f in r.get("functions", []):
             fns.append({"unit": name, **f})
         for h in r.get("assumptions", []):
+            if h.get("region_mode") in ("stub", "lemma_stub"):
+                stub_uses.append((name, h["region"]))
+                continue
             assumptions.append("%s: %s %s%s" % (name, h["kind"], h["item"] or "?",
                                                  (" (region %s, %s)" % (h["region"], h["region_mode"])) if h["region"] else ""))
         info = r.get("info", {})
@@ -135,6 +139,17 @@ def finish(prop, tier, seed, results, wall, known, no_evidence=False):
         per = r.get("clauses_per_fn") or {}
         for fn, c in list(per.items())[:3]:
             samples.append({"unit": name, "function": fn, "woven_clauses": c})
+    # callee contracts imported as external_body stubs: they are assumptions unless proved in a unit of this run
+    proved = set()
+    for name, r in results.items():
+        for reg in r.get("info", {}).get("regions", []):
+            if reg.get("mode") in ("verify", "lemma"):
+                proved.add(reg["name"])
+    unproved = sorted({reg for (_, reg) in stub_uses if reg not in proved})
+    assumptions.append("%d uses of callee/lemma contracts as external_body stubs across units; %d distinct contracts, %d of them proved in a unit of this run" % (
+        len(stub_uses), len({reg for _, reg in stub_uses}), len({reg for _, reg in stub_uses}) - len(unproved)))
+    for reg in unproved:
+        assumptions.append("ASSUMED CONTRACT (stub not proved in this run): %s" % reg)
     lvl = LEVELS.get(prop, {"level": "proof"})
     smt_total = sum(f["smt_s"] for f in fns)
     cov = {
